@@ -11,6 +11,8 @@ source: the reference holds hashes only, a rewrite is a local transformation of 
 What cannot be restored is left as it is, and the rules see the function as written.
 """
 import ast
+import os
+import sys
 import copy
 from collections import Counter
 
@@ -1144,7 +1146,8 @@ def rw_fuse_loops(func, k):
             j = i + 1
             while j < len(blk) and isinstance(blk[j], ast.Assign) and isinstance(blk[j].value, (ast.List, ast.Dict, ast.Constant)) and not getattr(blk[j].value, 'elts', None):
                 j += 1
-            if j < len(blk) and isinstance(blk[j], ast.For) and not blk[j].orelse and ast.dump(blk[j].target) == ast.dump(s.target) and ast.dump(blk[j].iter) == ast.dump(s.iter):
+            if j < len(blk) and isinstance(blk[j], ast.For) and not blk[j].orelse and ast.dump(blk[j].iter) == ast.dump(s.iter) and \
+                    (ast.dump(blk[j].target) == ast.dump(s.target) or (isinstance(blk[j].target, ast.Name) and isinstance(s.target, ast.Name))):
                 sites.append((blk, i, j))
     if k >= len(sites):
         return False
@@ -1156,6 +1159,43 @@ def rw_fuse_loops(func, k):
     init_names = {t.id for x in inits for t in x.targets if isinstance(t, ast.Name)}
     if any(isinstance(n, ast.Name) and n.id in init_names for n in ast.walk(a)):
         return True
+
+    def written(body):
+        out = set()
+        for st in body:
+            for n in ast.walk(st):
+                if isinstance(n, ast.Name) and isinstance(n.ctx, (ast.Store, ast.Del)):
+                    out.add(n.id)
+                elif isinstance(n, (ast.Subscript, ast.Attribute)) and isinstance(n.ctx, (ast.Store, ast.Del)):
+                    out |= _roots(n.value)
+                elif isinstance(n, ast.Call) and isinstance(n.func, ast.Attribute) and n.func.attr in MUTATORS:
+                    out |= _roots(n.func.value)
+                elif isinstance(n, ast.Call) and not _is_pure(n):
+                    out.add('<call>')
+        return out
+
+    def mentioned(body):
+        return {n.id for st in body for n in ast.walk(st) if isinstance(n, ast.Name)}
+    # the iterations of the two loops are interleaved by the fusion: neither body may touch what the other one writes
+    w1, w2 = written(a.body), written(b.body)
+    lv = {y.id for y in ast.walk(a.target) if isinstance(y, ast.Name)} | {y.id for y in ast.walk(b.target) if isinstance(y, ast.Name)}
+    if ((w1 - lv) & mentioned(b.body)) or ((w2 - lv) & mentioned(a.body)) or (w1 & lv) or (w2 & lv):
+        return True
+    if '<call>' in w1 and '<call>' in w2:
+        return True
+    if any(isinstance(n, (ast.Break, ast.Return)) for st in a.body + b.body for n in ast.walk(st)):
+        return True
+    if ast.dump(a.target) != ast.dump(b.target):
+        va, vb = a.target.id, b.target.id
+        if va in mentioned(b.body):
+            return True
+        par = parents_of(func)
+        if not _free_loop_name(func, vb, {id(y) for y in ast.walk(b)}, par):
+            return True
+        for st in b.body:
+            for n in ast.walk(st):
+                if isinstance(n, ast.Name) and n.id == vb:
+                    n.id = va
     a.body = a.body + b.body
     blk[i:j + 1] = inits + [a]
     return True
@@ -1436,6 +1476,40 @@ def rw_zip_to_index(func, k):
             N = _static_len(scope, n.iter)
             if N is not None:
                 sites.append((n, N))
+            elif len(n.iter.args) == 2:
+                # Y = [... for v in X] / [... for j in range(len(X))] and neither X nor Y changes after that: len(Y) == len(X)
+                for X, Y in ((n.iter.args[0].id, n.iter.args[1].id), (n.iter.args[1].id, n.iter.args[0].id)):
+                    ydefs = [st for st in ast.walk(scope) if isinstance(st, ast.Assign) and len(st.targets) == 1 and isinstance(st.targets[0], ast.Name) and st.targets[0].id == Y]
+                    ystores = [y for y in ast.walk(scope) if isinstance(y, ast.Name) and y.id == Y and isinstance(y.ctx, (ast.Store, ast.Del))]
+                    if len(ydefs) != 1 or len(ystores) != 1 or not (isinstance(ydefs[0].value, ast.ListComp) and len(ydefs[0].value.generators) == 1 and not ydefs[0].value.generators[0].ifs):
+                        continue
+                    it = ydefs[0].value.generators[0].iter
+                    if not (ast.unparse(it) == X or ast.unparse(it) == 'range(len(%s))' % X):
+                        continue
+                    dl = ydefs[0].lineno
+                    if getattr(n, 'lineno', getattr(_par.get(n), 'lineno', 0)) <= dl:
+                        continue
+                    changed = False
+                    for y in ast.walk(scope):
+                        if getattr(y, 'lineno', 0) < dl:
+                            continue
+                        if isinstance(y, ast.Call) and isinstance(y.func, ast.Attribute) and y.func.attr in MUTATORS and ast.unparse(y.func.value) in (X, Y):
+                            changed = True
+                        if isinstance(y, ast.Name) and y.id == X and isinstance(y.ctx, (ast.Store, ast.Del)):
+                            changed = True
+                        if isinstance(y, (ast.AugAssign,)) and isinstance(y.target, ast.Name) and y.target.id in (X, Y):
+                            changed = True
+                    # the definition must not sit in a loop that the use is outside of (stale value of an earlier iteration)
+                    q2, loops_def = _par.get(ydefs[0]), []
+                    while q2 is not None and q2 is not scope:
+                        if isinstance(q2, (ast.For, ast.While)):
+                            loops_def.append(q2)
+                        q2 = _par.get(q2)
+                    inside_all = all(any(n is z or (isinstance(n, ast.comprehension) and _par.get(n) is z) for z in ast.walk(lp)) for lp in loops_def)
+                    if not changed and inside_all:
+                        for nm in (X, Y):
+                            sites.append((n, ast.Call(func=ast.Name(id='len', ctx=ast.Load()), args=[ast.Name(id=nm, ctx=ast.Load())], keywords=[])))
+                        break
     if k >= len(sites):
         return False
     g, N = sites[k]
@@ -2713,6 +2787,130 @@ def rw_last_appended(func, k):
     return True
 
 
+def rw_last_is_appended(func, k):
+    """L.append(t) ; ... L[-1] ...     ->     L.append(t) ; ... t ...        (L not resized and t not rebound in between)"""
+    sites = []
+    for owner, fld, blk in blocks_of(func):
+        for i, st in enumerate(blk):
+            t_, v = _append_stmt(st)
+            if t_ is None or not isinstance(v, ast.Name):
+                continue
+            ltxt = ast.unparse(t_)
+            for nxt in blk[i + 1:]:
+                stop = False
+                for y in ast.walk(nxt):
+                    if isinstance(y, ast.Call) and isinstance(y.func, ast.Attribute) and y.func.attr in MUTATORS and ast.unparse(y.func.value) == ltxt:
+                        stop = True
+                    if isinstance(y, ast.Name) and isinstance(y.ctx, (ast.Store, ast.Del)) and (y.id == v.id or y.id in _roots(t_)):
+                        stop = True
+                    if isinstance(y, (ast.Subscript, ast.Attribute)) and isinstance(y.ctx, (ast.Store, ast.Del)) and ast.unparse(y) == ltxt:
+                        stop = True
+                if stop:
+                    break
+                hits = [y for y in ast.walk(nxt) if isinstance(y, ast.Subscript) and isinstance(y.ctx, ast.Load) and ast.unparse(y) == '%s[-1]' % ltxt]
+                if hits:
+                    sites.append((nxt, hits, v.id))
+    if k >= len(sites):
+        return False
+    nxt, hits, t = sites[k]
+    for y in hits:
+        replace_node(nxt, y, fix(ast.Name(id=t, ctx=ast.Load()), y))
+    return True
+
+
+def rw_move_append(func, k):
+    """L.append(t) ; S    <->    S ; L.append(t)        (t a name S does not rebind, S does not mention L: the same object ends up in L)"""
+    sites = []
+    for owner, fld, blk in blocks_of(func):
+        for i, st in enumerate(blk):
+            t_, v = _append_stmt(st)
+            if t_ is None or not isinstance(v, ast.Name):
+                continue
+            for j in (i + 1, i - 1):
+                if not 0 <= j < len(blk):
+                    continue
+                o = blk[j]
+                if isinstance(o, FuncDef + (ast.Return, ast.Raise, ast.Break, ast.Continue)):
+                    continue
+                lroots = _roots(t_)
+                bad = False
+                for y in ast.walk(o):
+                    if isinstance(y, ast.Name) and (y.id in lroots or (y.id == v.id and isinstance(y.ctx, (ast.Store, ast.Del)))):
+                        bad = True
+                    if isinstance(y, (ast.Return, ast.Break, ast.Continue)) and not isinstance(o, (ast.For, ast.While)):
+                        bad = True
+                    if isinstance(y, ast.Return):
+                        bad = True
+                if not bad:
+                    sites.append((blk, i, j))
+    if k >= len(sites):
+        return False
+    blk, i, j = sites[k]
+    blk[i], blk[j] = blk[j], blk[i]
+    return True
+
+
+def _local_list(func, name):
+    """every binding of the name in the function is a list display / comprehension / list() call"""
+    whole = getattr(Ctx, 'whole_func', None)
+    if whole is not None and getattr(whole, 'name', None) == getattr(func, 'name', None):
+        func = whole
+    defs = 0
+    for n in ast.walk(func):
+        if isinstance(n, ast.arg) and n.arg == name:
+            return False
+        if isinstance(n, (ast.Assign, ast.AugAssign, ast.For, ast.comprehension, ast.With, ast.NamedExpr)):
+            tg = n.targets if isinstance(n, ast.Assign) else [n.target] if not isinstance(n, ast.With) else [i_.optional_vars for i_ in n.items if i_.optional_vars is not None]
+            for t in tg:
+                for y in ast.walk(t):
+                    if isinstance(y, ast.Name) and y.id == name and isinstance(y.ctx, ast.Store):
+                        if isinstance(n, ast.AugAssign) and isinstance(n.op, ast.Add):
+                            continue
+                        if not (isinstance(n, ast.Assign) and len(n.targets) == 1 and t is n.targets[0] and isinstance(t, ast.Name)
+                                and (isinstance(n.value, (ast.List, ast.ListComp)) or (isinstance(n.value, ast.Call) and isinstance(n.value.func, ast.Name) and n.value.func.id == 'list'))):
+                            return False
+                        defs += 1
+    return defs > 0
+
+
+def rw_append_augadd(func, k):
+    """L.append(x)   <->   L += [x]        (L a local that is only ever bound to lists)"""
+    sites = []
+    for owner, fld, blk in blocks_of(func):
+        for st in blk:
+            t_, v = _append_stmt(st)
+            if t_ is not None and isinstance(t_, ast.Name) and _local_list(func, t_.id):
+                sites.append((blk, st, 'aug'))
+            if isinstance(st, ast.AugAssign) and isinstance(st.op, ast.Add) and isinstance(st.target, ast.Name) and isinstance(st.value, ast.List) and len(st.value.elts) == 1 \
+                    and not isinstance(st.value.elts[0], ast.Starred) and _local_list(func, st.target.id):
+                sites.append((blk, st, 'app'))
+    if k >= len(sites):
+        return False
+    blk, st, how = sites[k]
+    if how == 'aug':
+        new = ast.AugAssign(target=ast.Name(id=st.value.func.value.id, ctx=ast.Store()), op=ast.Add(), value=ast.List(elts=[st.value.args[0]], ctx=ast.Load()))
+    else:
+        new = ast.Expr(value=ast.Call(func=ast.Attribute(value=ast.Name(id=st.target.id, ctx=ast.Load()), attr='append', ctx=ast.Load()), args=[st.value.elts[0]], keywords=[]))
+    blk[blk.index(st)] = fix(new, st)
+    return True
+
+
+def rw_list_call_to_comp(func, k):
+    """X = list(IT)    ->    X = [v for v in IT]"""
+    sites = []
+    for owner, fld, blk in blocks_of(func):
+        for st in blk:
+            if isinstance(st, ast.Assign) and len(st.targets) == 1 and isinstance(st.value, ast.Call) and isinstance(st.value.func, ast.Name) and st.value.func.id == 'list' \
+                    and len(st.value.args) == 1 and not st.value.keywords and not isinstance(st.value.args[0], ast.Starred):
+                sites.append(st)
+    if k >= len(sites):
+        return False
+    st = sites[k]
+    v = '_lv%d' % st.lineno
+    st.value = fix(ast.ListComp(elt=ast.Name(id=v, ctx=ast.Load()), generators=[ast.comprehension(target=ast.Name(id=v, ctx=ast.Store()), iter=st.value.args[0], ifs=[], is_async=0)]), st.value)
+    return True
+
+
 def rw_inline_helper(func, k):
     """a statement that calls a helper the reference does not contain (after other rewrites made it a plain statement)"""
     helpers = Ctx.helpers
@@ -2754,7 +2952,7 @@ def rw_inline_helper(func, k):
     return True
 
 
-GUIDED = [rw_zip_to_index, rw_inline_helper, rw_extract_temp, rw_flatten_comp_filter, rw_first_of_concat, rw_split_tuple_assign, rw_augcomp_to_loop, rw_len_zero, rw_bool_ifexp, rw_singleton_comp, rw_ndenumerate_value, rw_flat_to_ndenumerate, rw_slice_zero, rw_flip_compare, rw_keyword_to_positional, rw_fstring_to_percent, rw_np_all_any, rw_range_min_guard, rw_membership_container, rw_drop_default_arg, rw_unpack_first, rw_use_alias, rw_ravel_flatten, rw_last_appended, rw_pass_branch, rw_dictcomp_to_loop, rw_none_flag, rw_argcomp_to_loop, rw_hoist_return, rw_get_none, rw_else_after_exit_wrap, rw_else_after_exit_unwrap, rw_comp_to_loop, rw_loop_to_comp, rw_not_compare, rw_demorgan, rw_swap_branches, rw_merge_nested_if, rw_split_and_if, rw_guard_to_swapped_else, rw_swapped_else_to_guard, rw_drop_tail_return, rw_add_tail_return, rw_element_to_index_loop, rw_fuse_loops, rw_late_publication, rw_drop_tail_continue, rw_items_loop, rw_filter_loop, rw_loop_to_update, rw_is_false, rw_hoist_common_tail, rw_sink_common_tail, rw_try_tail_out, rw_try_tail_in, rw_genexp_loop, rw_guarded_subscript_get, rw_update_to_loop, rw_append_comp_to_loop, rw_split_append_concat, rw_enumerate_to_index, rw_subscripted_literal, rw_extend_to_loop, rw_comp_over_collected, rw_tail_pass_to_continue, rw_split_or_exit, rw_merge_exit_ifs, rw_unroll_const_loop, rw_drop_noop_pass, rw_ifexp_to_if, rw_if_to_ifexp, rw_bool_to_if, rw_kwargs_default, rw_trailing_return, rw_enumerate, rw_return_temp]
+GUIDED = [rw_zip_to_index, rw_inline_helper, rw_extract_temp, rw_flatten_comp_filter, rw_first_of_concat, rw_split_tuple_assign, rw_augcomp_to_loop, rw_len_zero, rw_bool_ifexp, rw_singleton_comp, rw_ndenumerate_value, rw_flat_to_ndenumerate, rw_slice_zero, rw_flip_compare, rw_keyword_to_positional, rw_fstring_to_percent, rw_np_all_any, rw_range_min_guard, rw_membership_container, rw_drop_default_arg, rw_unpack_first, rw_use_alias, rw_ravel_flatten, rw_last_appended, rw_pass_branch, rw_dictcomp_to_loop, rw_none_flag, rw_argcomp_to_loop, rw_hoist_return, rw_get_none, rw_else_after_exit_wrap, rw_else_after_exit_unwrap, rw_comp_to_loop, rw_loop_to_comp, rw_not_compare, rw_demorgan, rw_swap_branches, rw_merge_nested_if, rw_split_and_if, rw_guard_to_swapped_else, rw_swapped_else_to_guard, rw_drop_tail_return, rw_add_tail_return, rw_element_to_index_loop, rw_fuse_loops, rw_late_publication, rw_drop_tail_continue, rw_items_loop, rw_filter_loop, rw_loop_to_update, rw_is_false, rw_hoist_common_tail, rw_sink_common_tail, rw_try_tail_out, rw_try_tail_in, rw_genexp_loop, rw_guarded_subscript_get, rw_update_to_loop, rw_append_augadd, rw_list_call_to_comp, rw_last_is_appended, rw_move_append, rw_append_comp_to_loop, rw_split_append_concat, rw_enumerate_to_index, rw_subscripted_literal, rw_extend_to_loop, rw_comp_over_collected, rw_tail_pass_to_continue, rw_split_or_exit, rw_merge_exit_ifs, rw_unroll_const_loop, rw_drop_noop_pass, rw_ifexp_to_if, rw_if_to_ifexp, rw_bool_to_if, rw_kwargs_default, rw_trailing_return, rw_enumerate, rw_return_temp]
 
 
 def _clone(node):
@@ -2765,8 +2963,8 @@ def _clone(node):
         return copy.deepcopy(node)
 
 
-ENABLERS = {rw_subscripted_literal: [rw_extract_temp], rw_zip_to_index: [rw_extract_temp], rw_comp_to_loop: [rw_enumerate_to_index, rw_zip_to_index, rw_split_append_concat, rw_append_comp_to_loop]}
-REMOVALS = (rw_drop_tail_return, rw_drop_tail_continue, rw_drop_noop_pass)
+ENABLERS = {rw_subscripted_literal: [rw_extract_temp], rw_list_call_to_comp: [rw_comp_to_loop], rw_zip_to_index: [rw_extract_temp], rw_comp_to_loop: [rw_enumerate_to_index, rw_zip_to_index, rw_split_append_concat, rw_append_comp_to_loop]}
+REMOVALS = (rw_drop_tail_return, rw_drop_tail_continue, rw_drop_noop_pass, rw_fuse_loops)
 
 
 def _search(func, score, max_rounds, budget):
@@ -2855,6 +3053,8 @@ def _search(func, score, max_rounds, budget):
             final = True        # one last sweep over the rewrites that had no improving site earlier
         else:
             final = False
+    if os.environ.get('VERIF_RESTORE_DEBUG'):
+        print('search %s: evals=%d applied=%s' % (getattr(func, 'name', '?'), evals, applied), file=sys.stderr)
     return applied
 
 
